@@ -179,6 +179,10 @@ UF_ORACLES.setdefault("upper", lambda s: s.upper())
 WS_STR = "\x09\x0a\x0b\x0c\x0d\x1c\x1d\x1e\x1f\x20\x85\xa0\u1680\u2000\u2001\u2002\u2003\u2004\u2005\u2006\u2007\u2008\u2009\u200a\u2028\u2029\u202f\u205f\u3000"  # every code point with str.isspace()
 WS_BYTES = " \t\n\r\x0b\x0c"
 
+try:  # extension modules are loaded in alphabetical order and libx_dns also wraps split(): load it first so that this wrapper is outermost
+    from . import libx_dns as _libx_dns  # noqa: F401
+except ImportError:  # pragma: no cover
+    pass
 _lib_split = METHODS[(SStr, "split")]
 
 
